@@ -1113,6 +1113,23 @@ def _type_has(T, pred):
     return False
 
 
+def _cx_shares_position(v, cx):
+    """does an object with both complex field names share its builder position with an object lacking one of them?"""
+    acc = {}
+
+    def walk(x, path):
+        if isinstance(x, list):
+            for y in x:
+                walk(y, path + ("[]",))
+        elif isinstance(x, dict):
+            acc.setdefault(path, []).append(frozenset(x))
+            for k, y in x.items():
+                walk(y, path + ("." + k,))
+    walk(v, ())
+    both = frozenset(cx)
+    return any(any(both <= ks for ks in sets) and any(not both <= ks for ks in sets) for sets in acc.values())
+
+
 def run_pin(case):
     A, P = _pak()
     data = JT.unpack(case["text"])
@@ -1273,9 +1290,19 @@ def run_pout(case):
                     raise Violation("p:to_json_file_returns|" + region, "ak.to_json with a destination must return None", observed=repr(text)[:200])
                 with open(path, "rb") as f:
                     text = f.read().decode("utf-8", "surrogateescape")
+    except BaseException:
+        if path is not None and os.path.exists(path):
+            os.unlink(path)
+        raise
+    try:
+        return _pout_rest(case, A, P, T, V, img, expected, tags, region, lay, arr, cx, kw, lkw, path, outcome, text)
     finally:
         if path is not None and os.path.exists(path):
             os.unlink(path)
+
+
+def _pout_rest(case, A, P, T, V, img, expected, tags, region, lay, arr, cx, kw, lkw, path, outcome, text):
+    o = case["opts"]
     if img.complex and cx is None:
         tags.add("out:complex_without_strings")
         if outcome == "ok":
@@ -1317,18 +1344,16 @@ def run_pout(case):
     tags.add("p:to_list_compared")
     # ---- ak.from_json(ak.to_json(a)) with the same strings: equals a up to the builder's unification
     names_clash = cx is not None and _type_has(T, lambda t: t[0] == "record" and not t[2] and cx[0] in [n for n, _ in t[1]] and cx[1] in [n for n, _ in t[1]])
-    def _under_option(t):
-        return t[1] if t[0] == "option" else t
-
-    def _cx_meets_record(t):
-        if t[0] != "union":
-            return False
-        ms = [_under_option(m) for m in t[1]]
-        return any(m[0] == "prim" and m[1].startswith("complex") for m in ms) and any(m[0] == "record" for m in ms)
-    complex_beside_record = img.complex and _type_has(T, _cx_meets_record)
+    # ArrayBuilder merges, position by position (all lists at one position are one list, all objects one record type), so a
+    # complex number {re, im} that shares its position with any other object ends up in a RecordArray whose re/im fields are
+    # option-type: from_json then raises the documented "Complex number fields must be numbers"
+    complex_beside_record = cx is not None and img.complex and _cx_shares_position(expected, cx)
     rkw = {"nan_string": o["nan"], "infinity_string": o["inf"], "minus_infinity_string": o["minf"], "complex_record_fields": cx,
            "initial": case["reader"]["initial"], "resize": case["reader"]["resize"]}
-    okind, back = _poutcome(lambda: A.from_json(text, **rkw))
+    # (what was written to a destination file is read back by its name)
+    okind, back = _poutcome(lambda: A.from_json(path if path is not None else text, **rkw))
+    if path is not None:
+        tags.add("p:roundtrip_through_file")
     if names_clash or complex_beside_record:
         # a user record with both field names is (documented) read as a complex number, and a complex number unified with
         # another record in one RecordArray has option-type parts ("Complex number fields must be numbers"): not judged
